@@ -38,6 +38,7 @@ class Engine(ExecMixin, CallMixin, EvalMixin):
         self.elemref_fns = {}
         self._ordcache = {}
         self._hq = {}
+        self.at_fn = z3.Function('at', I, I, I)
         self.globalrefs = {}
         self.path_ends = []       # (kind, trace)
         import externs
@@ -139,6 +140,16 @@ class Engine(ExecMixin, CallMixin, EvalMixin):
         if s not in self.strconst:
             self.strconst[s] = len(self.strconst) + 1
         return StrV(IntVal(self.strconst[s]), IntVal(len(s.encode())), s)
+
+    def at(self, base, idx):
+        """element index base+idx, wrapped in an uninterpreted symbol so that quantifier patterns can match it"""
+        if z3.is_int_value(base) and base.as_long() == 0: return idx
+        if z3.is_int_value(base) and z3.is_int_value(idx): return IntVal(base.as_long() + idx.as_long())
+        return self.at_fn(base, idx)
+
+    def at_axiom(self):
+        b, i = z3.Ints('at!b at!i')
+        return z3.ForAll([b, i], self.at_fn(b, i) == b + i, patterns=[self.at_fn(b, i)])
 
     def elemref(self, et):
         key = self.skey(et)
